@@ -46,7 +46,7 @@ def getNode (w : Which) (e : Entry) : Node := match w with | .g => e.global | .l
 def setNode (w : Which) (e : Entry) (n : Node) : Entry :=
   match w with | .g => { e with global := n } | .l => { e with local_ := n }
 
-@[noinline] def modNode (ents : Nat → Entry) (w : Which) (i : Nat) (f : Node → Node) : Nat → Entry :=
+@[inline] def modNode (ents : Nat → Entry) (w : Which) (i : Nat) (f : Node → Node) : Nat → Entry :=
   upd ents i (setNode w (ents i) (f (getNode w (ents i))))
 
 /-- `appendEntry` -/
